@@ -65,8 +65,8 @@ def module(name, scs):
     return {name: "---- MODULE %s ----\nEXTENDS App\nScenariosV == {\n %s }\n====\n" % (name, ",\n ".join(tlc.tla(s) for s in scs))}
 
 
-def cfg(stamp="FALSE", cae="FALSE", invs=("MonitorOk", "CloseOnce", "SingleTransport", "TimeBounded", "NoStuck"), props=("Termination",)):
-    return ("SPECIFICATION Spec\nCONSTANTS\n Scenarios <- ScenariosV\n StampAlways = %s\n CloseAsError = %s\n" % (stamp, cae)
+def cfg(stamp="FALSE", cae="FALSE", torn="FALSE", invs=("MonitorOk", "CloseOnce", "SingleTransport", "TimeBounded", "NoStuck"), props=("Termination",)):
+    return ("SPECIFICATION Spec\nCONSTANTS\n Scenarios <- ScenariosV\n StampAlways = %s\n CloseAsError = %s\n CheckTorn = %s\n" % (stamp, cae, torn)
             + "".join("INVARIANT %s\n" % i for i in invs) + "".join("PROPERTY %s\n" % p for p in props))
 
 
@@ -160,6 +160,12 @@ def model_check(ctx, pid):
         ctx.notes["model_sees_stamp_overwrite_defect"] = r2.violated
         if "MonitorOk" not in r2.violated:
             ctx.machinery_error = "App.tla with StampAlways does not violate DetectBound: the model cannot see the defect"
+        # a data frame arriving exactly when the second ping is due, every ping answered at once
+        bug = [scen(I=3, T=1, conns=[conn(ev=[(6, "text")], lat=0)], userAt=11, horizon=20)]
+        r3 = tlc.run(name + "_torn", cfg(torn="TRUE", props=()), "%s_appmc_torn" % pid.lower(), gen=module(name + "_torn", bug), timeout=600)
+        ctx.notes["model_sees_torn_check_race"] = r3.violated
+        if "MonitorOk" not in r3.violated:
+            ctx.machinery_error = "App.tla with CheckTorn does not violate the monitor: the model cannot see the check() race"
     if pid in ("C14", "C15"):
         bug = [scen(R=1 if pid == "C15" else 0, conns=[conn(ev=[(1, "close")]), conn(ev=[(1, "close")])], userAt=9, horizon=20)]
         r2 = tlc.run(name + "_bug", cfg(cae="TRUE", props=()), "%s_appmc_bug" % pid.lower(), gen=module(name + "_bug", bug), timeout=600)
